@@ -195,9 +195,9 @@ func (f *FibStrategyTree) ClearNextHopsEnc(name enc.Name) {
 	f.fibStrategyRWMutex.Lock()
 	defer f.fibStrategyRWMutex.Unlock()
 
-	if name == nil {
-		return // In some weird case, when RibEntry.updateNexthops() is called, the name becomes nil.
-	}
+	// A nil name is the zero-component name, i.e. the root prefix, exactly as for
+	// every other operation of this table and for the hash-table implementation.
+	// (RibEntry.updateNexthopsEnc no longer passes the nil name of its filler nodes.)
 	node := f.root.findExactMatchEntryEnc(name)
 	if node != nil {
 		node.nexthops = make([]*FibNextHopEntry, 0)
